@@ -259,6 +259,15 @@ pub fn run_config(cfg: &Config, seed: u64, steps: usize, trace: &mut String, obs
         }
         std::thread::sleep(Duration::from_millis(300));
     }
+    // the whole server is suspended for 1.7 s in between (a stopped process, a paused VM):
+    // expiry follows real elapsed seconds all the same, the clock catches up when it resumes
+    unsafe {
+        libc::kill(child.id() as i32, libc::SIGSTOP);
+    }
+    std::thread::sleep(Duration::from_millis(1700));
+    unsafe {
+        libc::kill(child.id() as i32, libc::SIGCONT);
+    }
     while t0.elapsed() < Duration::from_millis(4300) {
         std::thread::sleep(Duration::from_millis(100));
     }
